@@ -1,5 +1,6 @@
 import IsalVerif.Driver.Hash
 import IsalVerif.Driver.Aes
+import IsalVerif.Driver.Rh
 /-! `isal_model`: reads operation lines on stdin, prints one canonical result line per operation. -/
 open IsalVerif IsalVerif.Driver
 
@@ -31,12 +32,29 @@ partial def aesEpisode (h : IO.FS.Stream) (s : ASt) : IO (Option String) := do
     IO.println out
     aesEpisode h s'
 
+/-- rolling-hash episode -/
+partial def rhEpisode (h : IO.FS.Stream) (st : IsalVerif.Impl.Rolling.RhState) : IO (Option String) := do
+  let line ← h.getLine
+  if line.isEmpty then return none
+  let toks := splitLine line
+  match toks with
+  | "E" :: _ => return some line
+  | [] => rhEpisode h st
+  | _ =>
+    let (st', out) := IsalVerif.Driver.Rh.step st toks
+    IO.println out
+    rhEpisode h st'
+
 partial def mainLoop (h : IO.FS.Stream) (pending : Option String) : IO Unit := do
   let line ← match pending with
     | some l => pure l
     | none => h.getLine
   if line.isEmpty then return ()
   match splitLine line with
+  | ["E", "rh", _impl] =>
+    IO.println "E"
+    let nxt ← rhEpisode h {}
+    mainLoop h nxt
   | ["E", "aes", fam] =>
     IO.println "E"
     -- the vaes_avx512 GCM family (and the public API when it dispatches to it: "pub:lazy") defers
